@@ -203,8 +203,25 @@ func c06State(p *core.Prog, r *core.Run, m *echModel, pre string) {
 		}, isConstName("nil"))}, "ech.ErrMissingExtension", procOK)
 	abortUnder(p, r, pre+".M4", "process:retry-config-id", m.process, []assumption{isRetry,
 		cmpAssume("c.outer.echExt.ConfigID != h.echExt.ConfigID", "!=", storedExt("ConfigID"), helloExt("ConfigID"))}, "ech.ErrIllegalParameter", procOK)
-	abortUnder(p, r, pre+".M4", "process:retry-cipher-suite", m.process, []assumption{isRetry,
-		cmpAssume("c.outer.echExt.CipherSuite != h.echExt.CipherSuite", "!=", storedExt("CipherSuite"), helloExt("CipherSuite"))}, "ech.ErrIllegalParameter", procOK)
+	// the cipher suite: compared as a whole, or KDF and AEAD each
+	whole := false
+	for _, b := range m.process.Blocks {
+		if iff, ok := b.Instrs[len(b.Instrs)-1].(*ssa.If); ok {
+			f := p.FactOf(core.Guard{Cond: iff.Cond, Pol: true, If: iff})
+			if f.R != nil && (storedExt("CipherSuite")(f.L) && helloExt("CipherSuite")(f.R) || storedExt("CipherSuite")(f.R) && helloExt("CipherSuite")(f.L)) {
+				whole = true
+			}
+		}
+	}
+	if whole {
+		abortUnder(p, r, pre+".M4", "process:retry-cipher-suite", m.process, []assumption{isRetry,
+			cmpAssume("c.outer.echExt.CipherSuite != h.echExt.CipherSuite", "!=", storedExt("CipherSuite"), helloExt("CipherSuite"))}, "ech.ErrIllegalParameter", procOK)
+	} else {
+		for _, part := range []string{"KDF", "AEAD"} {
+			abortUnder(p, r, pre+".M4", "process:retry-cipher-suite-"+part, m.process, []assumption{isRetry,
+				cmpAssume("c.outer.echExt.CipherSuite."+part+" != h.echExt.CipherSuite."+part, "!=", storedExt("CipherSuite", part), helloExt("CipherSuite", part))}, "ech.ErrIllegalParameter", procOK)
+		}
+	}
 	abortUnder(p, r, pre+".M4", "process:retry-enc", m.process, []assumption{isRetry,
 		cmpAssume("len(h.echExt.Enc) > 0", ">", func(e *core.Expr) bool { return e.Op == "call" && e.Name == "len" && helloExt("Enc")(e.Args[0]) }, isConstName("0"))}, "ech.ErrIllegalParameter", procOK)
 	abortUnder(p, r, pre+".M4", "process:retry-open-failed", m.process, []assumption{isRetry,
@@ -220,6 +237,8 @@ func c06State(p *core.Prog, r *core.Run, m *echModel, pre string) {
 	for i, st := range fieldStores(p, pkg, m.fConn["outer"]) {
 		r.Check(pre+".M4", fmt.Sprintf("outer:store#%d", i), core.Root(st.Parent()) == m.newConn, p.InstrPos(st), "c.outer is the first hello (stored by NewConn only)")
 	}
+	// "at the next sequence number": the shared context advances only on a successful open
+	c02HpkeOpen(p, r, pre+".M4.seq")
 	r.Floor(pre+".M4", 7)
 
 	// --- M5: handler under isRetry
